@@ -17,7 +17,7 @@ ENGINES = {
     "guards": ("nqsa/guards.py", "structural dominators, raising guards, range-predicate decision, pure predicate evaluation"),
     "flow": ("nqsa/flow.py", "per-function CFG, dominators, guards, path rules"),
     "emit": ("nqsa/emit.py", "emission model of builder code (ICmd constructions, operand roles)"),
-    "circuit": ("nqsa/circuit.py", "gate-list extraction from the AST + checker-side operator semantics"),
+    "circuit": ("nqsa/circuit.py", "checker-side AST interpreter over symbolic / model values (gate lists, emitters, small functions over enumerated domains) + operator semantics"),
 }
 
 
